@@ -740,6 +740,8 @@ def targeted_specs(rng, tier):
         specs.append(dict(kind="roundtrip", it=-2, n=n, form=("single_cut_gates" if i % 2 == 0 else "dict_marked"),
                           gates=gates, labels=[T(0)] * n, obs=_dense_obs(rng, n, 3) + [[3, 3, 3]], idle=[],
                           stream="descending_cut_gates"))
+        if i % 3 != 2:
+            specs[-1]["regs"] = [[1, 2], [2, 1]][i % 3]          # qubit index != index inside its register
     # (d) a measured X / Y above an identity (or Z) inside one partition: clbit index != qubit index
     for i in range(8 * rep):
         n = 4
@@ -823,7 +825,7 @@ def generate(rng, tier, outdir):
     w.SHARD = 16  # the structural check enumerates the whole product space: keep shards small, they run in parallel
     # deterministic budget: a number of requests and a cap on the total number of subexperiments simulated
     max_cases = 200 if tier == "quick" else 1200
-    max_circuits = 17000 if tier == "quick" else 170000
+    max_circuits = 23000 if tier == "quick" else 190000
     t0 = time.time()
     ncirc = 0
     for spec in fixed_specs():
